@@ -300,6 +300,32 @@ Definition handle (s : site) (r : request) : outcome :=
   if internal_blocks (s_internal s) (q_path r) then Status 404
   else browse (s_fs s) (s_hide s) (s_pages s) (s_prefix s) (s_browse s) (q_meth r) (q_path r) (q_ae r) (q_archive r) (q_limit r).
 
+(* ---- histories on one running site ----------------------------------------------------------
+   Requests interleaved with changes of the files below the root (any change: [EDisk fs] says
+   what the tree is afterwards; a file replaced by a new inode is a node with a new identity).
+   The handlers keep nothing between requests: FileServer.IsHidden opens and stats every
+   hide-list entry on every call, so the answer to a request is [handle] on the file system as it
+   is when the request arrives. *)
+Inductive event := EReq (r : request) | EDisk (fs : fsys).
+Definition with_fs (s : site) (fs : fsys) : site :=
+  {| s_fs := fs; s_hide := s_hide s; s_pages := s_pages s; s_prefix := s_prefix s;
+     s_internal := s_internal s; s_browse := s_browse s |}.
+Fixpoint run_history (s : site) (h : list event) : list (fsys * request * outcome) :=
+  match h with
+  | [] => []
+  | EReq r :: t => (s_fs s, r, handle s r) :: run_history s t
+  | EDisk fs :: t => run_history (with_fs s fs) t
+  end.
+Fixpoint current_fs (fs : fsys) (h : list event) : fsys :=
+  match h with
+  | [] => fs
+  | EReq _ :: t => current_fs fs t
+  | EDisk fs' :: t => current_fs fs' t
+  end.
+(* a file (or directory) replaced by a new inode: the node at [p] gets the identity [id] *)
+Definition reinode (fs : fsys) (p : bytes) (id : N) : fsys :=
+  map (fun n => if beq (n_path n) p then {| n_path := n_path n; n_dir := n_dir n; n_id := id |} else n) fs.
+
 (* ---- the fixture the harness writes to disk (Gen_C02b is regenerated from the same tables) ---- *)
 Definition fs_of_table (t : list (bytes * bool * N)) : fsys :=
   map (fun t => match t with (p, d, i) => {| n_path := p; n_dir := d; n_id := i |} end) t.
